@@ -6,7 +6,7 @@ VARIABLE cfg
 O1 == "https://o1.example"   O2 == "https://o2.example"
 OriginsC == {<<>>, <<"*">>, <<O1>>, <<O1, O2>>, <<"*", O1>>, <<O2, O1, O2>>}
 AllowC   == {<<>>, <<"*">>, <<"*", "X-A">>, <<"Content-Type">>, <<"Content-Type", "X-A">>, <<"Content-Type", "X-CSRF-Token", "X-Client-Id", "content-length">>}
-ExposeC  == {<<>>, <<"E1", "E2">>}
+ExposeC  == {<<>>, <<"E1", "E2">>, <<"*", "E1">>}
 MaxAgeC  == {0, -1, 50, -2}
 CorsCfgs == {[on |-> TRUE, origins |-> o, allow |-> a, expose |-> e, maxage |-> m, cred |-> c] :
                o \in OriginsC, a \in AllowC, e \in ExposeC, m \in MaxAgeC, c \in BOOLEAN}
